@@ -716,6 +716,7 @@ class Hypergraph:
                     warn(f"uid {idx} already exists, cannot add edge {members}.")
                     continue
                 try:
+                    members = list(members)
                     self._edge[idx] = set(members)
                 except TypeError as e:
                     raise XGIError("Invalid ebunch format") from e
@@ -776,6 +777,7 @@ class Hypergraph:
                 warn(f"uid {idx} already exists, cannot add edge {members}.")
             else:
                 try:
+                    members = list(members)
                     self._edge[idx] = set(members)
                 except TypeError as e:
                     raise XGIError("Invalid ebunch format") from e
